@@ -663,6 +663,9 @@ func (e *Exec) pushCall(g *Goroutine, f FuncV, args []Value, retTo ssa.Value, on
 		return
 	}
 	e.fnSeen[fn] = true
+	if e.job.Trace && fn.Pkg != nil && strings.HasPrefix(fn.Pkg.Pkg.Path(), "github.com/tsuna/gohbase") {
+		e.trace = append(e.trace, fmt.Sprintf("g%d %s%s", g.id, strings.Repeat(" ", len(g.stack)), fn.String()))
+	}
 	fr := &Frame{fn: fn, env: map[ssa.Value]Value{}, block: fn.Blocks[0], retTo: retTo, onRet: onRet}
 	if len(all) != len(fn.Params) {
 		panic(fmt.Sprintf("arity %s: %d vs %d", fn, len(all), len(fn.Params)))
